@@ -106,14 +106,17 @@ XalanDOMStringPool::get(
 {
     assert(m_stringCount == m_hashTable.size());
 
-    if (theString == 0 || *theString == 0)
+    const XalanDOMString::size_type     theActualLength =
+        theString == 0 ? 0 : (theLength == XalanDOMString::npos ? length(theString) : theLength);
+
+    // The key is a sequence of theActualLength units: it is empty
+    // when that length is 0, not when its first unit is U+0000.
+    if (theActualLength == 0)
     {
         return s_emptyString;
     }
     else
     {
-        const XalanDOMString::size_type     theActualLength = theLength == XalanDOMString::npos ? length(theString) : theLength;
-
         size_t  theBucketIndex;
 
         const XalanDOMString*   theTableString = m_hashTable.find(theString, theActualLength, &theBucketIndex);
